@@ -63,15 +63,14 @@ macro_rules! pow2range_pin {
         }
     };
 }
-pow2range_pin!(pow2range_pin_5, 5);
-pow2range_pin!(pow2range_pin_6, 6);
 pow2range_pin!(pow2range_pin_0, 0);
 pow2range_pin!(pow2range_pin_4, 4);
 
 fn pow2range_run(pin: Option<u8>) {
     use midnight_circuits::field::decomposition::pow2range::Pow2RangeChip;
     let nr: u8 = any();
-    assume(nr <= 6);
+    // what the decoder lets through: arch_read_total proves Ok => nr < 5
+    assume(nr <= 4);
     if let Some(v) = pin {
         assume(nr == v);
     } else {
@@ -104,9 +103,11 @@ pub fn arch_read_total() {
             crate::vcover!(true, "decodes");
             assert!(buf[0] == 1 && buf[1] == 0 && buf[2] == 0 && buf[3] == 0);
             assert!(len >= 16);
-            // the field that sizes the column slices is taken verbatim from the wire
+            // the field that sizes the column slices is the wire byte, and only values that
+            // ZkStdLib::configure / Pow2RangeChip::configure accept are let through (fix 67d9d08)
             assert!(a.nr_pow2range_cols == buf[15]);
-            crate::vcover!(a.nr_pow2range_cols == 200);
+            assert!((a.nr_pow2range_cols as usize) < 5, "decoded nr_pow2range_cols outside what configure accepts");
+            crate::vcover!(a.nr_pow2range_cols == 4);
         }
         Err(e) => {
             crate::vcover!(true, "rejects");
